@@ -1991,7 +1991,6 @@ def tables_c06(run):
         ('quaternion:UnitQuaternion.__mul__', 'unit quaternion * vector through qvmul', ['qvmul(left._A, getvector(right, 3))'], 'any'),
         ('quaternion:UnitQuaternion.__mul__', 'unit quaternion sequence * vector', ['array([qvmul(x, getvector(right)) for x in left._A]).T'], 'any'),
         ('quaternion:UnitQuaternion.__mul__', 'unit quaternion * columns', ['array([qvmul(left._A, x) for x in right.T]).T'], 'any'),
-        ('DualQuaternion:DualQuaternion.__mul__', 'unit dual quaternion sandwich', ['(left * DualQuaternion.Pure(getvector(right, 3)) * left.conj()).dual.v'], 'any'),
     ], rule=RULE)
 
 
